@@ -1,5 +1,6 @@
 import SFV.Proofs.GaussNM
 import SFV.Proofs.Physical
+import SFV.Proofs.FockTensor
 
 /-!
 # C07 — every simulated state is physical and gates conserve what they must
@@ -65,6 +66,13 @@ theorem rotation_conserves {K : Type} [CommRing K] (st : GS K) (c s : K) (k i : 
 theorem loss_scales {K : Type} [CommRing K] (st : GS K) (q : K) (k i : Nat) :
     ((loss st q k).N i i).re = (if i = k then q * (q * (st.N k k).re) else (st.N i i).re) :=
   loss_photon st q k i
+
+/-- **Fock density matrices stay Hermitian**: `ρ ↦ U ρ U†` on any mode of a register of any size
+preserves `ρ[j,i] = conj ρ[i,j]` (interleaved row/column axes), for every matrix `U` -/
+theorem fock_hermitian_preserved {K : Type} [CommSemiring K] (cj : K →+* K) (hinv : ∀ x, cj (cj x) = x)
+    (D : Nat) (mat : Nat → Nat → K) (m : Nat) (ρ : SFV.Fock.Tens K) (hρ : SFV.Fock.Herm cj ρ) :
+    SFV.Fock.Herm cj (SFV.Fock.applyAt1 D (fun v b => cj (mat v b)) (2 * m + 1) (SFV.Fock.applyAt1 D mat (2 * m) ρ)) :=
+  SFV.Fock.herm_conj1 cj hinv D mat m ρ hρ
 
 /-! ### non-vacuity: the one-mode vacuum satisfies the uncertainty relation's premises -/
 example : (3 / 5 : Rat) * (3 / 5) + (4 / 5) * (4 / 5) = 1 ∧ (5 / 4 : Rat) * (5 / 4) - (3 / 4) * (3 / 4) = 1 := by
